@@ -23,7 +23,8 @@ RULE = ("states are description objects; transitions are load operations applied
         "serialize/deserialize in JSON and YAML and dump/load through real temporary files, each applied up to 3 times to the "
         "same object; every step is compared with the same operation on a pristine deep copy and the object is compared with "
         "its snapshot; states = distinct description objects, transitions = operations judged; non-trivial = object containing "
-        "a complex value")
+        "a complex value"
+        ' Additions: loaded polar documents through both round trips; documents with shared sub-objects; load_network_from_json.')
 ASSUMPTIONS = ["python json/yaml libraries", "float repr round-trips exactly through JSON and YAML"]
 EXPLANATION = "explicit exploration of operation histories on shared description objects with a deep-snapshot oracle"
 
